@@ -109,6 +109,7 @@ impl ProcessState {
             dbfile
         };
         let must_create = !dbfile.exists();
+        vgate!("init_exists", "create": must_create);
         let mut db: Connection;
         {
             let tx = if !must_create {
@@ -184,6 +185,7 @@ impl ProcessState {
                 tx
             };
 
+            vgate!("init_write", "create": must_create);
             if e.runid.is_none() {
                 tx.execute(
                     "insert into Runid values \
@@ -196,6 +198,7 @@ impl ProcessState {
                         .map_err(|e| RedoError::wrap(e, "failed to read runid"))?,
                 );
             }
+            vemit!("RunStart", "runid": e.runid, "toplevel": e.is_toplevel(), "create": must_create);
 
             tx.commit().map_err(RedoError::opaque_error)?;
         }
@@ -260,6 +263,10 @@ impl<'a> ProcessTransaction<'a> {
         state
             .db
             .execute_batch(query)
+            .map(|x| {
+                vemit!("TxBegin", "mode": query);
+                x
+            })
             .map(move |_| ProcessTransaction {
                 state: Some(state),
                 drop_behavior: DropBehavior::Rollback,
@@ -301,6 +308,16 @@ impl<'a> ProcessTransaction<'a> {
 
     fn finish_(&mut self) -> rusqlite::Result<&'a mut ProcessState> {
         let state = self.state.take().unwrap();
+        match self.drop_behavior {
+            DropBehavior::Commit => {
+                vemit!("Commit", "wrote": state.wrote);
+                vgate!("commit", "wrote": state.wrote);
+            }
+            DropBehavior::Rollback => {
+                vemit!("Rollback", "wrote": state.wrote);
+            }
+            _ => {}
+        }
         match self.drop_behavior {
             DropBehavior::Ignore => Ok(state),
             DropBehavior::Commit => match state.db.execute_batch("COMMIT") {
@@ -533,6 +550,7 @@ impl File {
 
     /// Write the file to the database.
     pub fn save(&mut self, ptx: &mut ProcessTransaction) -> Result<(), RedoError> {
+        vemit!("RowSave", "id": self.id, "name": self.name.as_str(), "gen": self.is_generated, "ovr": self.is_override, "checked": self.checked_runid, "changed": self.changed_runid, "failed": self.failed_runid, "stamp": self.stamp.as_ref().map(|s| s.0.to_string()), "csum": self.csum);
         ptx.write(
             "update Files set is_generated=?, \
                               is_override=?, \
@@ -723,6 +741,7 @@ impl File {
     /// delete them right away, because if the build fails, we still want to
     /// know the old deps.
     pub(crate) fn zap_deps1(&mut self, ptx: &mut ProcessTransaction) -> Result<(), RedoError> {
+        vemit!("Zap1", "id": self.id, "name": self.name.as_str());
         log_debug2!("zap-deps1: {:?}\n", &self.name);
         ptx.write(
             "update Deps set delete_me=? where target=?",
@@ -737,6 +756,7 @@ impl File {
     /// Dependencies of a given target can change from one build to the next.
     /// We forget old dependencies only after a build completes successfully.
     pub(crate) fn zap_deps2(&mut self, ptx: &mut ProcessTransaction) -> Result<(), RedoError> {
+        vemit!("Zap2", "id": self.id, "name": self.name.as_str());
         log_debug2!("zap-deps2: {:?}\n", &self.name);
         ptx.write(
             "delete from Deps where target=? and delete_me=1",
@@ -754,6 +774,7 @@ impl File {
         dep: &'a P,
     ) -> Result<(), RedoError> {
         let src = File::from_name(ptx, dep, true)?;
+        vemit!("DepAdd", "id": self.id, "name": self.name.as_str(), "mode": <&str>::from(mode), "src": src.name.as_str(), "srcid": src.id);
         log_debug3!(
             "add-dep: \"{}\" < {:?} \"{}\"\n",
             &self.name,
@@ -1215,6 +1236,7 @@ impl Lock {
                 &fid_flock(libc::F_WRLCK as c_short, self.fid).map_err(RedoError::opaque_error)?,
             ),
         );
+        vemit!("LockTry", "fid": self.fid, "ok": result.is_ok());
         match result {
             Ok(_) => {
                 self.owned = true;
@@ -1229,6 +1251,8 @@ impl Lock {
     pub fn wait_lock(&mut self, lock_type: LockType) -> Result<(), RedoError> {
         self.check()?;
         assert!(!self.owned);
+        vemit!("LockWait", "fid": self.fid);
+        vgate!("lockwait", "fid": self.fid);
         let fcntl_type = match lock_type {
             LockType::Exclusive => libc::F_WRLCK as c_short,
             LockType::Shared => libc::F_RDLCK as c_short,
@@ -1238,6 +1262,7 @@ impl Lock {
             FcntlArg::F_SETLKW(&fid_flock(fcntl_type, self.fid).map_err(RedoError::opaque_error)?),
         )
         .map_err(RedoError::opaque_error)?;
+        vemit!("LockAcq", "fid": self.fid, "shared": lock_type == LockType::Shared);
         self.owned = true;
         Ok(())
     }
@@ -1245,6 +1270,7 @@ impl Lock {
     /// Release the lock, which we must currently own.
     pub fn unlock(&mut self) -> Result<(), RedoError> {
         assert!(self.owned, "can't unlock {} - we don't own it", self.fid);
+        vemit!("LockRel", "fid": self.fid);
         fcntl::fcntl(
             self.manager.file.as_raw_fd(),
             FcntlArg::F_SETLK(
